@@ -274,7 +274,7 @@ def _judge_meta(ctx, spec, stmt, statement, data, trig, reasons, direct_exc, tag
             except Exception as exc:
                 # a missing column / a filter over foreign elements surfaces in engine specific ways (no such column,
                 # lateral reference, struct field extraction ...): attributed through the direct analysis
-                cause = sorted(reasons) if mode == 'columns' else sorted(trig & {'mixed-table-ref'})
+                cause = sorted(reasons) if mode == 'columns' else []  # (the mixed-table-ref cause of row filters is repaired)
                 if not cause and edep:
                     out.append('meta:engine-dependent-error')  # e.g. SQLite's python floor() on a NULL the filter now meets
                     continue
